@@ -59,6 +59,7 @@ struct uftrace_task_reader {
 	int display_depth;
 	int user_display_depth;
 	int fork_display_depth;
+	int fork_stack_count;
 	int column_index;
 	int event_color;
 	int sched_cpu;
